@@ -14,14 +14,14 @@ claimed = {
          'NARROW. Decides derivation shape agreement, completeness of session (un)marshalling, PRF reset per KDF block and rejection gates for degenerate peer parameters; equality of both parties\' keys, conformance with SP 800-108 and session independence are numerical and NOT decided.',
          'Trusts go/types+go/ssa, crypto/ecdh, crypto/rsa, math/big.', 'DESIGN.md §2 C14'),
  'C15': ('loop-carried budget shape check, must-pass for MTU and overhead guards, boundary-comparison lint',
-         'NARROW. Decides budget accounting only (budget minus appended chunk size, owner MTU gate, overhead from the raw key, forced break closes the pipe, canonical size boundaries); losslessness/ordering over all sizes, splits and schedules are NOT decided.',
+         'NARROW. Decides budget accounting only (budget minus appended chunk size, owner MTU gate, overhead from the raw key, forced break closes the pipe, canonical size boundaries, key of the next service info read independently of the remaining budget); losslessness/ordering over all sizes, splits and schedules are NOT decided.',
          'Trusts go/types+go/ssa.', 'DESIGN.md §2 C15'),
  'C16': ('must-pass dataflow for dispatch gates, all-paths reply search, value-identity table',
-         'NARROW. Decides the dispatch gates (Receive only when active, unknown modules answer, unread bodies are errors, Done only after IsDone, IsDone from NextModule after completion, devmod writer uses the negotiated MTU); exactly-once in-order delivery across messages and schedules is NOT decided.',
+         'NARROW. Decides the dispatch gates (Receive and Yield only when active, unknown modules answer, unread bodies are errors, Done only after IsDone, IsDone from NextModule after completion, devmod writer uses the negotiated MTU); exactly-once in-order delivery across messages and schedules is NOT decided.',
          'Trusts go/types+go/ssa.', 'DESIGN.md §2 C16'),
 
  'C19': ('effect-confinement scans (global / receiver stores) over the wire-reachable call graph + lockset (guarded-by) dataflow with gen/kill on Lock/Unlock',
-         'Structural necessary conditions only: wire-reachable code writes no package-level state, shared server objects are never written through their receivers, the sqlite store signs with the secret it read back, and the service-info pipes access their buffer/error/channels only under their mutexes (one reviewed exception). Race freedom in general, deadlock freedom, lost wake-ups and isolation inside other backends are properties of schedules and are not decided.',
+         'Structural necessary conditions only: wire-reachable code writes no package-level state, shared server objects are never written through their receivers, the sqlite store signs with the secret it read back, the service-info pipes access their buffer/error/channels only under their mutexes (one reviewed exception), the closable readers channel is sent on only after its close indicator was seen open under the closing lock, no mutating method is called on package-level objects, and sqlite.Open limits its pool to one connection. Race freedom in general, deadlock freedom, lost wake-ups and isolation inside other backends are properties of schedules and are not decided.',
          'Trusts go/types+go/ssa; lock identity is by canonical receiver address within one function; the guarded-field table and its single exception are in /verif/checker/c19.go.', 'DESIGN.md §2 C19'),
 
  'C10': ('peer-taint analysis over the class-hierarchy call graph + guard obligations (explicit panics, partial lookups, allocations, compiler-unproven bounds, stdlib preconditions, type assertions, decoded-pointer nil checks) + must-pass dataflow',
